@@ -24,6 +24,23 @@ pub fn neutralise(rule: &str, prop: &str, case: &J) -> Option<J> {
 			}
 			changed.then(|| sc.to_json())
 		}
+		"json_repeated_key_to_toml" => {
+			// JSON (explicit or detected) with a repeated object key, TOML target.
+			let mut sc = Scenario::from_json(case)?;
+			if sc.to != Fmt::Toml {
+				return None;
+			}
+			let mut changed = false;
+			for c in &mut sc.calls {
+				if matches!(c.from, Some(Fmt::Json) | None) {
+					if let Some(b) = drop_repeated_json_keys(&c.bytes) {
+						c.bytes = b;
+						changed = true;
+					}
+				}
+			}
+			changed.then(|| sc.to_json())
+		}
 		"yaml_position_after_flip" => {
 			// C09 library runs only: reader supply with detection, YAML selected, both the
 			// detected and the explicit run fail, and their texts are equal once
@@ -193,4 +210,51 @@ fn scalar_len(b: &[u8]) -> usize {
 		}
 	}
 	i
+}
+
+
+/// If the bytes are a valid JSON stream in which some object repeats a key,
+/// returns the stream re-emitted without the earlier duplicates (last wins).
+pub fn drop_repeated_json_keys(b: &[u8]) -> Option<Vec<u8>> {
+	let text = std::str::from_utf8(b).ok()?;
+	let mut values = vec![];
+	for v in serde_json::Deserializer::from_str(text).into_iter::<serde_json::Value>() {
+		values.push(v.ok()?);
+	}
+	fn members(v: &serde_json::Value) -> usize {
+		match v {
+			serde_json::Value::Array(a) => a.iter().map(members).sum(),
+			serde_json::Value::Object(o) => o.len() + o.values().map(members).sum::<usize>(),
+			_ => 0,
+		}
+	}
+	let kept: usize = values.iter().map(members).sum();
+	// Members in the text = ':' tokens outside strings.
+	let mut in_str = false;
+	let mut esc = false;
+	let mut colons = 0usize;
+	for &c in b {
+		if in_str {
+			if esc {
+				esc = false;
+			} else if c == b'\\' {
+				esc = true;
+			} else if c == b'"' {
+				in_str = false;
+			}
+		} else if c == b'"' {
+			in_str = true;
+		} else if c == b':' {
+			colons += 1;
+		}
+	}
+	if colons <= kept {
+		return None;
+	}
+	let mut out = vec![];
+	for v in &values {
+		out.extend_from_slice(serde_json::to_string(v).ok()?.as_bytes());
+		out.push(b'\n');
+	}
+	Some(out)
 }
